@@ -1,9 +1,34 @@
-(* Props/C14.v -- property C14 (statements proved so far; see DESIGN.md section 7 C14). *)
-From Coq Require Import NArith List Bool.
-From NRF Require Import Env.Radio Env.RadioFacts.
+(* Props/C14.v -- property C14 (multicast reaches exactly the nodes of the target level, once).  PARTIAL, see
+   DESIGN.md section 7: proved are the addressing facts multicast rests on; who queues and who relays a
+   multicast frame, once each, is decided by the correspondence run and its checker (corr/c14.py). *)
+From Coq Require Import ZArith NArith List Bool Lia.
+From NRF Require Import Env.Radio Env.RadioFacts Net.Addr Net.AddrFacts Net.PipeFacts.
 Import ListNotations.
 Local Open Scope N_scope.
-Theorem C14_status_is_pre_command : forall r cmd data,
-  hd 0 (snd (spi r (cmd :: data))) = status r.
+
+Theorem C14_status_is_pre_command : forall r cmd data, hd 0 (snd (spi r (cmd :: data))) = status r.
 Proof. exact spi_status_first. Qed.
 Print Assumptions C14_status_is_pre_command.
+
+(* the five network levels have five different multicast addresses: 0, 0o1, 0o10, 0o100, 0o1000 *)
+Theorem C14_level_addresses :
+  map lvl_2_addr [0; 1; 2; 3; 4] = [0; 1; 8; 64; 512] /\ NoDup (map lvl_2_addr [0; 1; 2; 3; 4]).
+Proof.
+  split; [reflexivity|]. vm_compute.
+  repeat (constructor; [cbn; intuition discriminate|]). constructor.
+Qed.
+Print Assumptions C14_level_addresses.
+
+(* the level argument of multicast() is clamped into 0..4 *)
+Theorem C14_level_clamp : forall l : Z, (0 <= Z.min 4 (Z.max l 0) <= 4)%Z.
+Proof. intro l. lia. Qed.
+Print Assumptions C14_level_clamp.
+
+(* with multicast allowed, EVERY node of a level (any of the 781 addresses) listens on pipe 0 on the very address
+   that multicast() to that level transmits to, for arbitrary address prefix/suffix bytes *)
+Theorem C14_level_members_share_pipe0 : forall prefix suffix a,
+  In a all_nodes ->
+  pipe_address prefix suffix true a 0 =
+  pipe_address prefix suffix true (lvl_2_addr (N.of_nat (length (digits_of 8 a)))) 0.
+Proof. exact level_pipe0. Qed.
+Print Assumptions C14_level_members_share_pipe0.
